@@ -41,7 +41,7 @@ EPS = 1e-6
 
 def plan(tier):
     q = tier == "quick"
-    out = [{"name": "main", "examples": 2500 if q else 200000}, {"name": "rollback", "examples": 800 if q else 60000}]
+    out = [{"name": "main", "examples": 6000 if q else 200000}, {"name": "rollback", "examples": 2000 if q else 60000}]
     for f in findings.open_for(PROPERTY):
         if f.exclude_profile:
             out.append({"name": "probe:" + f.id, "examples": 400 if q else 4000, "shards": 4})
